@@ -224,7 +224,9 @@ class Mon(object):
         self._hist = hist
         self._struct = None            # None: undecided; False: no; dict: mapping float variable -> field
         self._typed = None
-        if TYPED is not None and not sd.get('struct') and TYPED.random() < TYPED_P:
+        if sd.get('typed'):
+            self._typed = tuple(sd['typed'])     # the workload asks for it (Boolean-valued signals)
+        elif TYPED is not None and not sd.get('struct') and TYPED.random() < TYPED_P:
             self._typed = (TYPED.random() < 0.34, TYPED.random() < 0.5)
         self._parsed = parse
         if sd.get('structify'):
